@@ -35,9 +35,9 @@ structure AddrFormL (c : Model.X86.Ctx) (ctx : Spec.X86.Ctx) (m : Mem) (mo : Mem
 
 /-- the parser on the bytes of `EmitX86M` -/
 theorem legM_parsed (rule : Rule) (opcode opReg xb : BitVec 32) (pfx : List (BitVec 8)) (mb : BitVec 8) (sib : Option (BitVec 8)) (ds : List (BitVec 8))
-    (imm : BitVec 64) (n : Nat)
+    (imm : BitVec 64) (n : Nat) {d : Nat}
     (hopc : opcode &&& 0xF780FC00#32 = 0#32) (ho : opReg < 16#32) (hb : xb < 32#32)
-    (R : LegRuleM rule n ((opcode >>> 21) &&& 3#32).toNat) (A : LegAgree rule opcode)
+    (R : LegRuleMD rule n ((opcode >>> 21) &&& 3#32).toNat d) (A : LegAgree rule opcode)
     (hpl : PfxList3 false (pfx ++ ppBytes ((opcode >>> 21) &&& 3#32).toNat))
     (hmodne : bits mb 6 2 ≠ 3) (fsib : (bits mb 0 3 == 4) = sib.isSome) (hdl : ds.length = dispLen mb sib)
     (freg : bits mb 3 3 = (opReg &&& 7#32).toNat) :
@@ -171,6 +171,53 @@ theorem legM_mr_formOk (c : Model.X86.Ctx) (ctx : Spec.X86.Ctx) (rule : Rule) (o
   obtain ⟨p, hp, P, hR, F, hvk, hi⟩ := legM_parsed rule opcode opReg xb pfx _ sib ds 0 0 hopc ho AF.hxb R A (AF.hpl _ hpplt) s1 s2 s3 s4
   have hc := AF.chk rule p _ _ ho7 hpplt F hvk
   exact leg_mr_mem_formOk ctx rule p _ _ _ _ k0 f0 f1 _ mo hm64 hmode hk0 R hf0 hf1 (AF.hpc _ hpplt) AF.hvsib AF.hbc hal hp P hR hc
+
+/-- legacy shape [MEM] (ModRM.reg = the digit handed over as `opReg`, or free): the bytes of `EmitX86M` satisfy the monitor -/
+theorem legM_m_formOk (c : Model.X86.Ctx) (ctx : Spec.X86.Ctx) (rule : Rule) (opcode opReg xb : BitVec 32) (m : Mem) (mo : MemOp) (pfx : List (BitVec 8))
+    (mb : BitVec 32 → BitVec 8) (sib : Option (BitVec 8)) (ds : List (BitVec 8))
+    (AF : AddrFormL c ctx m mo pfx xb mb sib ds) (f0 : FormOp) (d : Nat)
+    (hm64 : ctx.mode64 = true) (hmode : (rule.modes &&& 2 != 0) = true) (hopc : opcode &&& 0xF780FC00#32 = 0#32) (ho : opReg < 8#32)
+    (R : LegRuleMD rule 0 ((opcode >>> 21) &&& 3#32).toNat d) (hd : d < 8 → opReg.toNat = d) (A : LegAgree rule opcode)
+    (hf0 : f0.role = .rm)
+    (hal : alignOps rule.oszEff rule.ops [.mem mo] = some [(f0, some (.mem mo))]) :
+    ∃ bytes, emitX86M c opcode 0#32 opReg m 0 0 = .ok bytes ∧ formOk ctx rule [.mem mo] {} bytes = true := by
+  have ho16 : opReg < 16#32 := by bv_decide
+  rw [AF.emit opcode opReg 0 0 ho16 hopc]
+  refine ⟨_, rfl, ?_⟩
+  have ho7 : opReg &&& 7#32 < 8#32 := by bv_decide
+  have hpplt : ((opcode >>> 21) &&& 3#32).toNat < 4 := R.hpplt
+  obtain ⟨s1, s2, s3, s4⟩ := AF.shape _ ho7
+  obtain ⟨p, hp, P, hR, F, hvk, hi⟩ := legM_parsed rule opcode opReg xb pfx _ sib ds 0 0 hopc ho16 AF.hxb R A (AF.hpl _ hpplt) s1 s2 s3 s4
+  have hc := AF.chk rule p _ _ ho7 hpplt F hvk
+  refine leg_m_mem_formOk ctx rule p _ _ _ _ d f0 mo hm64 hmode R ?_ hf0 (AF.hpc _ hpplt) AF.hvsib AF.hbc hal hp P hc
+  intro hd8
+  rw [s4, ← hd hd8]
+  have : opReg &&& 7#32 = opReg := by bv_decide
+  rw [this]
+
+/-- legacy shape [MEM, imm] with a digit: the bytes of `EmitX86M` satisfy the monitor (the immediate's conditions are the hypothesis `hic`) -/
+theorem legM_mi_formOk (c : Model.X86.Ctx) (ctx : Spec.X86.Ctx) (rule : Rule) (opcode opReg xb : BitVec 32) (m : Mem) (mo : MemOp) (pfx : List (BitVec 8))
+    (mb : BitVec 32 → BitVec 8) (sib : Option (BitVec 8)) (ds : List (BitVec 8))
+    (AF : AddrFormL c ctx m mo pfx xb mb sib ds) (f0 f3 : FormOp) (d : Nat) (v imm1 : BitVec 64) (isz : Nat)
+    (hm64 : ctx.mode64 = true) (hmode : (rule.modes &&& 2 != 0) = true) (hopc : opcode &&& 0xF780FC00#32 = 0#32) (ho : opReg < 8#32)
+    (R : LegRuleMD rule isz ((opcode >>> 21) &&& 3#32).toNat d) (hd : d < 8 → opReg.toNat = d) (A : LegAgree rule opcode)
+    (hf0 : f0.role = .rm)
+    (hic : ∀ p : Parsed, p.imm = emitImmediate imm1 isz → allOk (opConds ctx rule p 0 f3 (.imm v)).1 = true)
+    (hal : alignOps rule.oszEff rule.ops [.mem mo, .imm v] = some [(f0, some (.mem mo)), (f3, some (.imm v))]) :
+    ∃ bytes, emitX86M c opcode 0#32 opReg m imm1 isz = .ok bytes ∧ formOk ctx rule [.mem mo, .imm v] {} bytes = true := by
+  have ho16 : opReg < 16#32 := by bv_decide
+  rw [AF.emit opcode opReg imm1 isz ho16 hopc]
+  refine ⟨_, rfl, ?_⟩
+  have ho7 : opReg &&& 7#32 < 8#32 := by bv_decide
+  have hpplt : ((opcode >>> 21) &&& 3#32).toNat < 4 := R.hpplt
+  obtain ⟨s1, s2, s3, s4⟩ := AF.shape _ ho7
+  obtain ⟨p, hp, P, hR, F, hvk, hi⟩ := legM_parsed rule opcode opReg xb pfx _ sib ds imm1 isz hopc ho16 AF.hxb R A (AF.hpl _ hpplt) s1 s2 s3 s4
+  have hc := AF.chk rule p _ _ ho7 hpplt F hvk
+  refine leg_mi_mem_formOk ctx rule p _ _ _ _ d isz f0 f3 mo v hm64 hmode R ?_ hf0 (hic p hi) (AF.hpc _ hpplt) AF.hvsib AF.hbc hal hp P hc
+  intro hd8
+  rw [s4, ← hd hd8]
+  have : opReg &&& 7#32 = opReg := by bv_decide
+  rw [this]
 
 /-- legacy shape [reg, MEM, imm8]: the bytes of `EmitX86M` satisfy the monitor -/
 theorem legM_rmi_formOk (c : Model.X86.Ctx) (ctx : Spec.X86.Ctx) (rule : Rule) (opcode opReg xb : BitVec 32) (m : Mem) (mo : MemOp) (pfx : List (BitVec 8))
